@@ -249,4 +249,8 @@ def real_exception_class(name):
     c = getattr(builtins, name, None)
     if isinstance(c, type) and issubclass(c, BaseException):
         return c
+    if name in ('ProcessError', 'BufferTooShort', 'AuthenticationError'):
+        # billiard/__init__.py and exceptions.py re-export multiprocessing's classes
+        import multiprocessing
+        return getattr(multiprocessing, name)
     return None
